@@ -32,7 +32,7 @@ def same_as_plain(cfg, lines, obs):
     return out
 
 def run(ctx):
-    ok = ctx.lean(['AmcVerif.Props.C12', 'AmcVerif.Props.C12b'])
+    ok = ctx.lean(['AmcVerif.Props.C12', 'AmcVerif.Props.C12b'], extra_modules=['AmcVerif.Bridge.FlatSetBridge'])
     dom = 5 if ctx.tier == 'quick' else 7
     cfgs = [S.SetCfg('flat', cmp='less', pool=2), S.SetCfg('flat', cmp='greater', uvec='std', pool=2), S.SetCfg('flat', cmp='mod', uvec='small', pool=2)]
     if ctx.tier == 'thorough':
